@@ -133,6 +133,48 @@ var guardedExempt = map[string]string{
 	kCoreLoad: "Load runs before the database handle exists: no other goroutine can reach the stores",
 }
 
+// guardedExemptFor: the named functions, and the unexported helpers of the package that run only on their stack
+// (every caller in the module is exempt): a stage of Load extracted into a helper is still Load.
+func guardedExemptFor(p *Prog, fi *FuncInfo) (string, bool) {
+	return guardedExemptRec(p, fi, map[string]bool{})
+}
+
+func guardedExemptRec(p *Prog, fi *FuncInfo, open map[string]bool) (string, bool) {
+	if why, ok := guardedExempt[fi.Key]; ok {
+		return why, true
+	}
+	if fi.Obj == nil || fi.Obj.Exported() || open[fi.Key] {
+		return "", false
+	}
+	open[fi.Key] = true
+	defer delete(open, fi.Key)
+	cg := p.CallGraph()
+	n := 0
+	why := ""
+	for caller, outs := range cg.Out {
+		for _, callee := range outs {
+			if callee != fi.Key {
+				continue
+			}
+			ck := strings.SplitN(caller, "$", 2)[0]
+			cf := p.Funcs[ck]
+			if cf == nil {
+				return "", false
+			}
+			w, ok := guardedExemptRec(p, cf, open)
+			if !ok {
+				return "", false
+			}
+			why = w
+			n++
+		}
+	}
+	if n == 0 {
+		return "", false
+	}
+	return why + " (helper called only from there)", true
+}
+
 func coreFuncs(p *Prog) []*FuncInfo {
 	var res []*FuncInfo
 	for _, fi := range p.Funcs {
@@ -184,7 +226,7 @@ func inferEntryHeld(p *Prog, fi *FuncInfo, depth int) []Held {
 		if caller.Decl.Body == nil || caller.Pkg != fi.Pkg || caller == fi {
 			continue
 		}
-		if _, exempt := guardedExempt[caller.Key]; exempt {
+		if _, exempt := guardedExemptFor(p, caller); exempt {
 			continue
 		}
 		calls := false
@@ -317,7 +359,7 @@ func c06GuardedBy(p *Prog, r *Report, rule string) int {
 				idx[name]++
 				cons := fmt.Sprintf("%s#%s/%d", fi.Key, name, idx[name])
 				n++
-				if why, ok := guardedExempt[fi.Key]; ok {
+				if why, ok := guardedExemptFor(p, fi); ok {
 					r.Exempt(rule, cons, p.pos(ev.Call), why)
 					continue
 				}
